@@ -5,10 +5,10 @@
    regenerated from /repo on every run; vocabulary (mkE, ep, get_date, get_full, set_on, cid,
    the grids year_k / special_years / zs_of_year / fracs / times / offsets) is in C02_defs.v. *)
 From Coq Require Import ZArith List String Reals PrimFloat.
-From PyLib Require Import PyVal PyBuiltins B64 B64Facts Ideal.
+From PyLib Require Import PyVal PyBuiltins B64 B64Facts B64Verified Ideal.
 From Spec Require Import CalSpec CivilOfJdn.
 From Gen Require Import M_base M_Angle M_Epoch.
-From Proofs.C02 Require Import C02_defs C02_sym C02_symf C02_main C02_hms.
+From Proofs.C02 Require Import C02_defs C02_sym C02_symf C02_main C02_hms C02_arith.
 Import ListNotations.
 Open Scope Z_scope.
 
@@ -151,6 +151,32 @@ Theorem C02_arith_grid :
      arith_ok (jde_of (jdn y m 1) + fr)%float x).
 Proof. exact (conj arith_grid arith_special). Qed.
 
+(* (c) EVERY finite float JDE j in [0, 5.4e6] and offset |x| <= 1e6 (binary64, Flocq error bounds; RV is
+   the real value of a float, fin = finite): (e + x) - e and e - (e - x) are within 1e-8 day of x, and
+   x + e, e += x, e -= x return the same Epoch as e + x / e - x.
+   PREMISE (ctor_within a a1): the constructor call Epoch(a) for a = fl(j +/- x) returns an Epoch that
+   stores a1 with |a1 - a| <= 2^-29 = 1.86e-9 day.  Epoch(a) does NOT store a exactly in binary64 (set()
+   re-derives the JDE from the broken-down date: Epoch(4193243.6725671566).jde() = 4193243.672567157), so
+   this accuracy is a premise; it is attained (C02_ctor_within_attained; on the grids of
+   C02_full_date_grid / C02_arith_grid it is checked to 1e-8), and unproved for arbitrary floats. *)
+Theorem C02_arith_every_float : forall j x a1 : PrimFloat.float,
+  fin j -> fin x -> (0 <= RV j <= 5400000)%R -> (Rabs (RV x) <= 1000000)%R ->
+  (ctor_within (j + x)%float a1 ->
+     e_add (ep j) (VFloat x) = ep a1 /\ e_radd (ep j) (VFloat x) = ep a1 /\ e_iadd (ep j) (VFloat x) = ep a1 /\
+     e_sub (ep a1) (ep j) = VFloat (a1 - j)%float /\ fin (a1 - j)%float /\
+     (Rabs (RV (a1 - j)%float - RV x) <= / 100000000)%R) /\
+  (ctor_within (j - x)%float a1 ->
+     e_sub (ep j) (VFloat x) = ep a1 /\ e_isub (ep j) (VFloat x) = ep a1 /\
+     e_sub (ep j) (ep a1) = VFloat (j - a1)%float /\ fin (j - a1)%float /\
+     (Rabs (RV (j - a1)%float - RV x) <= / 100000000)%R).
+Proof.
+  intros j x a1 Fj Fx Hj Hx. split; intro C.
+  - exact (add_every_float j x a1 Fj Fx Hj Hx C).
+  - exact (sub_every_float j x a1 Fj Fx Hj Hx C).
+Qed.
+Theorem C02_ctor_within_attained : ctor_within (2451545.25 + 1.5)%float 2451546.75%float.
+Proof. exact ctor_within_witness. Qed.
+
 (* (d) ideal instance, all reals: the operators order Epochs as their JDE values *)
 Theorem C02_order_ideal : forall a b : R,
   (Epoch___lt__ Rops (epg a) (epg b) = VBool true <-> (a < b)%R) /\
@@ -181,5 +207,7 @@ Redirect "C02_datetime.assumptions" Print Assumptions C02_datetime.
 Redirect "C02_forms_grid.assumptions" Print Assumptions C02_forms_grid.
 Redirect "C02_operators.assumptions" Print Assumptions C02_operators.
 Redirect "C02_arith_grid.assumptions" Print Assumptions C02_arith_grid.
+Redirect "C02_arith_every_float.assumptions" Print Assumptions C02_arith_every_float.
+Redirect "C02_ctor_within_attained.assumptions" Print Assumptions C02_ctor_within_attained.
 Redirect "C02_order_ideal.assumptions" Print Assumptions C02_order_ideal.
 Redirect "C02_arith_ideal.assumptions" Print Assumptions C02_arith_ideal.
